@@ -1,6 +1,7 @@
 package main
 
 import (
+	"go/types"
 	"fmt"
 	"sort"
 	"strings"
@@ -139,6 +140,16 @@ func resultFields(p *Path) map[string]*Term {
 	for _, e := range p.Effects {
 		if e.Kind == "store" && e.Addr.Op == "field" && len(e.Addr.Args) == 1 && sameVal(e.Addr.Args[0], r) {
 			out[e.Addr.Sym] = e.Val
+		}
+		// whole-struct copy `c := *x; …; return &c`: every field starts as the field of x
+		if e.Kind == "store" && sameVal(e.Addr, r) && e.Val.Op == "load" && r.V != nil {
+			if pt, ok := r.V.Type().Underlying().(*types.Pointer); ok {
+				if st, ok := pt.Elem().Underlying().(*types.Struct); ok {
+					for i := 0; i < st.NumFields(); i++ {
+						out[st.Field(i).Name()] = mk("field", st.Field(i).Name(), nil, e.Val.Args[0])
+					}
+				}
+			}
 		}
 	}
 	return out
@@ -385,24 +396,31 @@ func c10StatObject(c *Ctx, a *sketchAnchors, rule string, part string) {
 		argField := func(t *Term, fld string) bool {
 			return t != nil && t.Op == "field" && t.Sym == fld && t.Args[0].isParam(1)
 		}
+		// two equivalent views of the same code: helpers executed inline, and helpers left as calls (the
+		// compensated-add helper is recognised by role — a call on the receiver fed with the argument's field —
+		// whatever its name)
+		psPlain, _ := execPlain(c, f, nil, 1)
 		for _, fn := range accum {
-			ok := len(ps) > 0
-			for _, p := range ps {
-				seen := false
-				for _, e := range p.Effects {
-					if e.Kind == "store" && isRecvField(e.Addr, fn) && e.Val.isBin("+") && (argField(e.Val.Args[0], fn) || argField(e.Val.Args[1], fn)) {
-						seen = true
+			folded := func(view []*Path) bool {
+				ok := len(view) > 0
+				for _, p := range view {
+					seen := false
+					for _, e := range p.Effects {
+						if e.Kind == "store" && isRecvField(e.Addr, fn) && e.Val.isBin("+") && (argField(e.Val.Args[0], fn) || argField(e.Val.Args[1], fn)) {
+							seen = true
+						}
+						// compensated fields are folded through the compensated-add helper
+						if e.Kind == "call" && len(e.Call.Args) == 2 && e.Call.Args[0].isParam(0) && argField(e.Call.Args[1], fn) {
+							seen = true
+						}
 					}
-					// compensated fields are folded through the compensated-add helper
-					if e.Kind == "call" && len(e.Call.Args) == 2 && e.Call.Args[0].isParam(0) && argField(e.Call.Args[1], fn) {
-						seen = true
+					if !seen {
+						ok = false
 					}
 				}
-				if !seen {
-					ok = false
-				}
+				return ok
 			}
-			c.R.check(ok, rule, "MergeWith/field/"+fn, shortFn(f), c.fpos(f), "argument's "+fn+" is folded into the receiver on every path", fmt.Sprintf("%d path(s)", len(ps)))
+			c.R.check(folded(ps) || folded(psPlain), rule, "MergeWith/field/"+fn, shortFn(f), c.fpos(f), "argument's "+fn+" is folded into the receiver on every path", fmt.Sprintf("%d path(s)", len(ps)))
 		}
 		c10MinMaxFold(c, rule, f, ps, "MergeWith", minF, maxF, func(fld string) func(*Term) bool {
 			return func(t *Term) bool { return argField(t, fld) }
